@@ -269,9 +269,15 @@ func Normalize(body []*Stmt) {
 			Normalize(s.Body)
 		}
 		if i > 0 && s.K == "expr" && firstTokIsSign(s.E) {
-			switch body[i-1].K {
-			case "var", "eval", "print", "expr":
-				body[i-1].Semi = true
+			// the previous statement ends in an expression that a sign would continue
+			prev := body[i-1]
+			switch prev.K {
+			case "eval", "print", "expr":
+				prev.Semi = true
+			case "var":
+				if prev.E != nil {
+					prev.Semi = true
+				}
 			}
 		}
 	}
